@@ -288,6 +288,74 @@ func nbnsScenarios(c *vf.Ctx, B int) []*scenario {
 			t.RegisterName("NY", nbtns.Unique, ipY, time.Hour)
 			t.RegisterName("NZ", nbtns.Unique, ipZ, time.Hour)
 		}
+		// R: two nodes claim the same NEW unique name at the same moment: exactly one is told it owns the name, and
+		// that one is the owner the table then names
+		out = append(out, &scenario{name: "nbns-" + im.name + "-two-registrations-of-one-new-name", keys: respKeys, bound: B, body: func(x *exec) {
+			s, t := im.mk()
+			seed(t)
+			if err := s.Start(); err != nil {
+				panic("harness: start: " + err.Error())
+			}
+			reqA := mkUpdate(0x1111, 5, "NEW", ipX, false, 3600)
+			reqB := mkUpdate(0x2222, 5, "NEW", ipY, false, 3600)
+			var ra, rb []resp
+			var h1, h2 *vrt.T
+			if im.tcp {
+				h1 = vrt.GoNamed("connA", func() { ra, _ = tcpExchange("127.0.0.1:137", [][]byte{reqA}, 0) })
+				h2 = vrt.GoNamed("connB", func() { rb, _ = tcpExchange("127.0.0.1:137", [][]byte{reqB}, 0) })
+			} else {
+				h1 = vrt.GoNamed("clientA", func() { ra = udpExchange(srvUDP, reqA) })
+				h2 = vrt.GoNamed("clientB", func() { rb = udpExchange(srvUDP, reqB) })
+			}
+			vrt.Join(h1)
+			vrt.Join(h2)
+			x.obs("A got %v; B got %v", ra, rb)
+			if len(ra) != 1 || len(rb) != 1 {
+				x.fail("exactly-one-response-per-request", "registration A received %d responses, registration B %d", len(ra), len(rb))
+			}
+			okA := len(ra) == 1 && ra[0].parsed && ra[0].rawID == 0x1111 && ra[0].rcode == 0
+			okB := len(rb) == 1 && rb[0].parsed && rb[0].rawID == 0x2222 && rb[0].rcode == 0
+			owners, _, qerr := t.QueryName("NEW")
+			x.obs("table: NEW -> %v %v", owners, qerr)
+			if len(ra) == 1 && len(rb) == 1 && ra[0].parsed && rb[0].parsed {
+				if okA == okB {
+					x.fail("response-answers-own-question", "two nodes registered the unique name NEW at the same time: A (10.0.0.1) got %v, B (10.0.0.2) got %v — exactly one of them may be told it owns the name; the table says %v", ra[0], rb[0], owners)
+				} else {
+					want := ipX
+					if okB {
+						want = ipY
+					}
+					if qerr != nil || len(owners) != 1 || !owners[0].Equal(want) {
+						x.fail("response-answers-own-question", "the node that was told it owns NEW is %s, but the table names %v (%v)", want, owners, qerr)
+					}
+				}
+			}
+			stopAndDrain(x, s)
+		}})
+		// F: a second server cannot bind the address (in use): its Start fails — and its Stop must still return
+		out = append(out, &scenario{name: "nbns-" + im.name + "-failed-start-then-stop", keys: respKeys, bound: B, body: func(x *exec) {
+			s, t := im.mk()
+			seed(t)
+			if err := s.Start(); err != nil {
+				panic("harness: start: " + err.Error())
+			}
+			s2, _ := im.mk()
+			err2 := s2.Start()
+			x.obs("second Start on the same address: err=%v", err2 != nil)
+			if err2 == nil {
+				x.fail("harness", "the simulated network let two servers bind one address")
+			}
+			hs := vrt.GoNamed("stop-second", func() { s2.Stop() })
+			var r1 []resp
+			if im.tcp {
+				r1, _ = tcpExchange("127.0.0.1:137", [][]byte{mkQuery(0x1111, 0, "NX")}, 0)
+			} else {
+				r1 = udpExchange(srvUDP, mkQuery(0x1111, 0, "NX"))
+			}
+			checkQueryResp(x, "client", 0x1111, "NX", ipX, r1, true)
+			vrt.Join(hs)
+			stopAndDrain(x, s)
+		}})
 		// G: a query for a group name racing with the release of a member that is not the last of the list
 		// (and, second variant, with a member joining): the answer is the member list before or after it
 		for _, upd := range []string{"release", "join"} {
